@@ -43,6 +43,13 @@ def run(ctx):
                                                  else "salt-reused")
             ctx.violation("C14", "written-record:%s:%s" % (what, cfg.get("algo", "?")), "event %d is not a behaviour of Written.tla: %s (store default %s)" % (
                 hwm[0], json.dumps(e), json.dumps(cfg)))
+    # after a reload the records written name the *new* default set (the reload sequences of C18, judged here for C14)
+    import reloadfam
+    before = len(ctx.violations)
+    reloadfam.run(ctx)
+    for v in ctx.violations[before:]:
+        if v["prop"] == "C18":
+            ctx.violation("C14", "written-record-after-reload:" + v["key"], v["detail"])
     cov["rule"] = ("every add/update edge of the Store model plus %d generated parameter sets x 9 passwords x add+update: each written line is "
                    "projected (independent digest recomputation from the YAML numbers, salt identity, time window, encoding) and the event "
                    "trace validated against Written.tla; the directory is scanned for passwords and HMAC keys in 5 encodings" % (60 if thorough else 20))
